@@ -53,8 +53,21 @@ def herm_measure(rec, cls, detail, A, lam_exp):
     # eigenvalues-only / eigenvectors-only entry points agree
     ev2 = np.asarray(L.eigen.quaternion_eigenvalues(Aq.copy()))
     V2 = q_to_float(np.asarray(L.eigen.quaternion_eigenvectors(Aq.copy()), dtype=np.quaternion))
-    rec.flag(t, "EntryPointsAgree", bool(ev2.shape == ev.shape and np.allclose(np.sort(np.real(ev2)), got, atol=1024 * EPS * top)
-                                         and V2.shape == Vf.shape and np.array_equal(V2, Vf)))
+    # the narrow entry points must meet the CONTRACT themselves (spectrum; unitary matrix of eigenvectors); that they
+    # return the very same arrays as the full decomposition is a mechanism fact only (eigenvectors are not unique)
+    ok_vals = bool(ev2.shape == ev.shape and np.allclose(np.sort(np.real(ev2)), np.sort(np.asarray(lam_exp, dtype=float)), atol=4096 * EPS * top * n))
+    ok_vecs = bool(V2.shape == Vf.shape)
+    if ok_vecs:
+        rec.units(t, "EigenvectorsEntryPointUnitary", S.unitary_units(V2))
+        AV = omul(A, V2)
+        resid = 0.0
+        for j in range(n):
+            v = V2[:, j:j + 1]
+            mu = omul(oherm(v), AV[:, j:j + 1])[0, 0, 0]          # Rayleigh quotient (real for Hermitian A)
+            resid = max(resid, ofro(AV[:, j:j + 1] - v * mu))
+        rec.units(t, "EigenvectorsEntryPointColumnsAreEigenvectors", units(resid, max(scale, 1e-300), 4 * n * n))
+    rec.flag(t, "EntryPointsAgree", ok_vals and ok_vecs)
+    rec.flag(t, "M:EntryPointsReturnIdenticalArrays", bool(ok_vecs and np.array_equal(V2, Vf)))
 
 
 def inplace_history(rec, cls, detail, A, lam_exp):
